@@ -189,9 +189,11 @@ func ruleFieldFlow(c *Ctx, r *Report, s ffSpec) {
 func ruleWhoCalls(c *Ctx, r *Report, clause string, calleePred func(string) bool, calleeDesc string, allowed []string, min int, desc string) {
 	w := c.W
 	got := map[string][]string{}
+	weight := map[string]int{}
 	for _, call := range w.callersOf(calleePred) {
 		fn := fnShort(call.Parent())
 		got[fn] = append(got[fn], w.pos(call.Pos()))
+		weight[fn] += w.siteWeight(call) // a call in a new helper stands for one per call of the helper
 	}
 	allowedSet := map[string]bool{}
 	for _, a := range allowed {
@@ -207,7 +209,7 @@ func ruleWhoCalls(c *Ctx, r *Report, clause string, calleePred func(string) bool
 	sort.Strings(fns)
 	for _, fn := range fns {
 		sites = append(sites, got[fn]...)
-		n += len(got[fn])
+		n += weight[fn]
 		if !allHostsIn(allowedSet, fn) {
 			viol = fmt.Sprintf("%s: %s is called from %s, which is not in the allowed set %v", got[fn][0], calleeDesc, fn, allowed)
 		}
